@@ -9,7 +9,7 @@ import common as C
 import loop_traces as LT
 
 THEORIES = ["Base", "EALoop", "EALoopProofs", "EALoopProofs2", "EAStore", "EAStoreProofs", "LoopCheck",
-            "RandomPrims", "Py", "PyLemmas", "GenLoop", "CodeEqLoop", "CodeEqStep"]
+            "RandomPrims", "Py", "PyLemmas", "GenLoop", "CodeEqLoop", "CodeEqStep", "CodeEqGreedy"]
 TRUSTED = ["translator harness/translate_loop.py (class TheFittest and the scalar stopping logic of EvolutionaryAlgorithm -> gen/GenLoop.v, "
            "regenerated on every run; classes as records, methods as functions on them, -inf as the extended rationals of coq/theories/Py.v); "
            "update_best / terminate / aim_of of the loop model are PROVED equal to the generated definitions (theories/CodeEqLoop.v)",
